@@ -17,7 +17,7 @@ from hypothesis import strategies as st
 
 from harness import hyp
 from harness import ref_memory as RM
-from harness.bus import NonTermination
+from harness.bus import NonTermination, run_interleaved
 from harness.runner import Result, library_frame
 from props import c09 as M
 
@@ -28,7 +28,10 @@ RULE = ("(value class, data or value, allow_short_write / force_unlock / ignore_
         "patterns x lock byte x addressing, every unit variant (each shorter last location, several unlock values, DTR0 "
         "stuck), every fault kind at every write index and at the DTR0 check, every wrong length; plus Hypothesis-"
         "generated tuples; distinct by construction / by fingerprint; non-trivial = writable value with a fault, a "
-        "non-standard unit, a lockable or multi-byte value, a short write, or a refusal (read-only / wrong length)")
+        "non-standard unit, a lockable or multi-byte value, a short write, or a refusal (read-only / wrong length); "
+        "several writes in flight: 2 or 3 such tuples (mostly one value class, different data / unit image / addressing) "
+        "on separate buses and the order in which they advance command by command (listed orders + Hypothesis-drawn), "
+        "non-trivial = the writes really overlap in time")
 ASSUMPTIONS = [
     "bus units follow harness/model_gear.py / model_devmem.py: WRITE MEMORY LOCATION is executed only while "
     "writeEnableState is ENABLED, answers the byte written or NO (not implemented / above last location / locked / not "
@@ -50,6 +53,8 @@ ASSUMPTIONS = [
     "and the MASK / TMASK literals of numeric values - the reference encoding is big-endian / ASCII + NUL if shorter / "
     "the all-ones pattern; scaled and offset classes are not claimed to encode (see DESIGN 3, 'not counted')",
     "a shorter bank never hides the lock byte of a lockable value (last accessible location >= 3 there)",
+    "write sequences in flight at the same time on separate buses (one driver per DALI line in one process) are "
+    "independent: each must satisfy the statement on its own unit, end the way it ends alone and leave the same memory",
 ]
 
 FAULT_NAMES = {"silence": "answer-no", "replace": "wrong-echo", "garble": "framing-error"}
@@ -119,6 +124,28 @@ LAST_OUTCOME = [None]
 
 
 def run_case(case):
+    if case.get("kind") == "interleaved":
+        return case_interleaved(case)
+    g = _case_steps(case)
+    try:
+        bus, seq = next(g)
+    except StopIteration as e:
+        return e.value
+    try:
+        oc = ("returned", bus.run(seq))
+    except Exception as e:  # noqa: classified by _case_steps
+        oc = ("raised", e)
+    try:
+        g.send(oc)
+    except StopIteration as e:
+        return e.value
+    raise RuntimeError("_case_steps yielded twice")
+
+
+def _case_steps(case, keep=None):
+    """One write case in two steps: builds the units, the bus and the library sequence and yields (bus, sequence); is
+    sent the sequence's outcome ("returned", value) | ("raised", exception) and returns the violations.  keep: optional
+    dict that receives the world ('w')."""
     L = M.lib()
     exc = L["exc"]
     row = M.all_rows()[case["key"]]
@@ -165,13 +192,16 @@ def run_case(case):
         seq = cls.write_raw(addr, bytes(raw), **kw)
     outcome, err = "returned", None
     nw_at_fault = None
-    try:
-        bus.run(seq)
-    except NonTermination:
-        return [("C10:nontermination", "%s: more than %d commands" % (where, bus.max_commands))]
-    except Exception as e:  # noqa
+    if keep is not None:
+        keep["w"] = w
+        keep["where"] = where
+    oc = yield (bus, seq)
+    if oc[0] == "raised":
+        e = oc[1]
+        if isinstance(e, NonTermination):
+            return [("C10:nontermination", "%s: more than %d commands" % (where, bus.max_commands))]
         if library_frame(e.__traceback__) is None:
-            raise
+            raise e
         outcome, err = "raised", e
     out = []
     before = w.image
@@ -279,8 +309,97 @@ def run_case(case):
     return out
 
 
+# --------------------------------------------------- several sequences in flight ----
+LAST_INTER = [None]     # (id(case), did the sequences really overlap in time) of the most recent interleaved case
+
+
+def _prepared(sub):
+    """-> (generator of _case_steps, keep dict, (bus, seq)) or (None, None, violations) when the case ends early"""
+    keep = {}
+    g = _case_steps(sub, keep)
+    try:
+        return g, keep, next(g)
+    except StopIteration as e:
+        return None, None, e.value
+
+
+def _finish(g, oc):
+    try:
+        g.send(oc)
+    except StopIteration as e:
+        return e.value
+    raise RuntimeError("_case_steps yielded twice")
+
+
+def _memory(w):
+    return [(u.name, b, list(u.banks[b].contents)) for u in w.units for b in sorted(u.banks)]
+
+
+def case_interleaved(case):
+    """Several write sequences in flight at once, each on its own bus against its own units, advanced command by
+    command in the order case['schedule'] (then case['cycle'] repeatedly): each must satisfy the single-write oracle on
+    its own unit, end the way it ends alone (returned / same exception class) and leave all memory as it does alone."""
+    subs = case["jobs"]
+    preps = [_prepared(c) for c in subs]
+    if any(p[0] is None for p in preps):
+        return []
+    order = []
+    ocs = run_interleaved([p[2] for p in preps], M.expand_schedule(case.get("schedule")),
+                          M.expand_schedule(case.get("cycle")) or None, order=order)
+    LAST_INTER[0] = (id(case), sum(1 for a, b in zip(order, order[1:]) if a != b) > len(subs) - 1)
+    out, seen = [], set()
+
+    def add(sig, msg):
+        if sig not in seen:
+            seen.add(sig)
+            out.append((sig, msg))
+
+    def brief(oc):
+        return "returned" if oc[0] == "returned" else "raised " + type(oc[1]).__name__
+
+    for i, ((g, keep, _), oc) in enumerate(zip(preps, ocs)):
+        vs = _finish(g, oc)
+        rg, rkeep, pair = _prepared(subs[i])
+        try:
+            roc = ("returned", pair[0].run(pair[1]))
+        except Exception as e:  # noqa: classified by _case_steps
+            roc = ("raised", e)
+        rvs = _finish(rg, roc)
+        for sig, msg in rvs:                  # not a matter of interleaving: the write fails on its own
+            add(sig, msg)
+        alone = set(sig for sig, _ in rvs)
+        why = None
+        if brief(oc) != brief(roc):
+            why = "it %s; alone it %s" % (brief(oc), brief(roc))
+        elif _memory(keep["w"]) != _memory(rkeep["w"]):
+            a, r = keep["w"].bank.contents, rkeep["w"].bank.contents
+            d = [k for k in range(M.NLOC) if a[k] != r[k]]
+            why = "memory is left different from the same write run alone" + (
+                ": location(s) %s hold [%s], alone [%s]" % (["0x%02x" % k for k in d[:8]], M.hexs([a[k] for k in d[:8]]),
+                                                            M.hexs([r[k] for k in d[:8]])) if d else " (another unit / bank)")
+        elif [v for v in vs if v[0] not in alone]:
+            why = "%s: %s" % [v for v in vs if v[0] not in alone][0]
+        if why:
+            add("C10:interleaved-sequences-interfere:" + ("write" if subs[i]["mode"] == "value" else "write_raw"),
+                "write #%d of %d in flight at the same time on separate buses (advance order %s...; the others: %s): %s: %s"
+                % (i, len(subs), order[:24], "; ".join(p[1]["where"] for k, p in enumerate(preps) if k != i),
+                   keep["where"], why))
+    LAST_OUTCOME[0] = "outcome:interleaved:" + ("overlapping" if LAST_INTER[0][1] else "sequential")
+    return out
+
+
 # ----------------------------------------------------------------- non-triviality ----
 def features(case):
+    if case.get("kind") == "interleaved":
+        subs = case["jobs"]
+        f = ["interleaved:%d-writes" % len(subs)]
+        if len(set(c["key"] for c in subs)) < len(subs):
+            f.append("interleaved:same-value-class")
+        if len(set(M.all_rows()[c["key"]]["bankobj"] for c in subs)) < len(subs):
+            f.append("interleaved:same-bank-object")
+        if len(set("device" if c["addr"] == "device" else "gear" for c in subs)) > 1:
+            f.append("interleaved:gear+device")
+        return f
     row = M.all_rows()[case["key"]]
     f = []
     wr = writable_row(row)
@@ -310,6 +429,9 @@ def features(case):
 
 
 def is_nontrivial(case):
+    if case.get("kind") == "interleaved":
+        # known once the case has run: did the sequences overlap in time at all?
+        return LAST_INTER[0] is not None and LAST_INTER[0][0] == id(case) and LAST_INTER[0][1]
     f = features(case)
     return any(x.startswith(("fault:", "variant:")) or x in ("lockable", "multi-byte", "short-write", "wrong-length",
                                                              "read-only") for x in f)
@@ -367,12 +489,15 @@ def _runner(res):
     def run(case, label):
         res.count()
         feats = features(case)
-        if is_nontrivial(case):
+        inter = case.get("kind") == "interleaved"
+        if not inter and is_nontrivial(case):
             res.nontrivial()
         for x in feats:
             res.label(x)
         res.label(label)
         vs = run_case(case)
+        if inter and is_nontrivial(case):
+            res.nontrivial()
         if LAST_OUTCOME[0]:
             res.label(LAST_OUTCOME[0])
         for sig, msg in vs:
@@ -453,6 +578,28 @@ def _shard_keys(arg):
                 run(C(pats[0], addr=addr, lock=lock, variant=v, ignore_feedback=True), "variant")
                 if v[0] == "short_bank" and w > 1:
                     run(C(pats[0][:max(1, w // 2)], addr=addr, lock=lock, variant=v, asw=True), "variant")
+        # two (three) writes of this value class in flight at once on separate buses, different data and units
+        scheds = [("round-robin", [], [0, 1]), ("round-robin-reversed", [], [1, 0]), ("blocks-of-2", [], [0, 0, 1, 1]),
+                  ("head-start-1", [0], [1, 0]), ("head-start-2", [0, 0], [1, 0]), ("head-start-3", [[0, 3]], [1, 0]),
+                  ("head-start-5", [[0, 5]], [1, 0]), ("nested", [[0, 3], [1, 400]], [0]), ("sequential", [[0, 400]], [1])]
+        for si, (name, sched, cyc) in enumerate(scheds):
+            for pj in (1, 2):
+                a = C(pats[0], addr=ADDRS[si % 3], lock=LOCKS[si % 3], image=["prng", seed * 7 + ki + 500])
+                b = C(pats[(pj + si) % len(pats) or 1], addr=ADDRS[(si + pj) % 3], lock=LOCKS[(si + pj) % 3],
+                      short=(short + pj) % 64, image=["prng", seed * 7 + ki + 900 + pj])
+                run({"kind": "interleaved", "jobs": [a, b], "schedule": sched, "cycle": cyc}, "interleaved:" + name)
+            vals = values_for(row, seed)
+            if len(vals) >= 2:
+                a = C(None, mode="value", value=vals[si % len(vals)], addr=ADDRS[si % 3])
+                b = C(None, mode="value", value=vals[(si + 1) % len(vals)], addr=ADDRS[(si + 1) % 3], short=(short + 1) % 64,
+                      image=["prng", seed * 7 + ki + 1300])
+                run({"kind": "interleaved", "jobs": [a, b], "schedule": sched, "cycle": cyc}, "interleaved:value-level:" + name)
+        if w > 1:
+            a = C(pats[0], addr="gear")
+            b = C(pats[1], addr="device", short=(short + 1) % 64, image=["prng", seed * 7 + ki + 1700])
+            c = C(pats[0][:max(1, w // 2)], asw=True, addr="int", short=(short + 2) % 64, image=["prng", seed * 7 + ki + 1800])
+            for cyc in ([0, 1, 2], [2, 1, 0], [0, 0, 1, 2, 2]):
+                run({"kind": "interleaved", "jobs": [a, b, c], "schedule": [], "cycle": cyc}, "interleaved:three")
         # one fault of each kind at each query index (writes 0..w-1, DTR0 check w)
         for q in range(w + 1):
             if quick and w > 12 and q % 6 != seed % 6 and q not in (0, w - 1, w):
@@ -519,6 +666,37 @@ def case_st(draw, wkeys, rokeys):
                  image=image, **fl)
 
 
+@st.composite
+def inter_st(draw, wkeys, rokeys):
+    """Two or three writes in flight: the first drawn freely, the others mostly of the same value class with other data,
+    another unit image, address and lock byte; plus the order in which they advance."""
+    a = draw(case_st(wkeys, rokeys))
+    jobs = [a]
+    for i in range(draw(st.sampled_from([1, 1, 1, 2]))):
+        if draw(st.integers(0, 4)) == 0:
+            jobs.append(draw(case_st(wkeys, rokeys)))
+            continue
+        b = dict(a)
+        b["short"] = draw(st.integers(0, 63))
+        b["addr"] = draw(st.sampled_from(ADDRS))
+        b["lock"] = draw(st.sampled_from(LOCKS))
+        b["image"] = draw(M.image_st().filter(lambda s: s != "default"))
+        if a["mode"] == "raw":
+            ln = len(a["data"])
+            b["data"] = list(draw(st.binary(min_size=ln, max_size=ln)))
+        else:
+            vals = [v for v in values_for(M.all_rows()[a["key"]], 1)]
+            b["value"] = draw(st.sampled_from(vals)) if vals else a["value"]
+        if draw(st.booleans()):
+            b["fault"] = None
+        jobs.append(b)
+    n = len(jobs)
+    sched = draw(st.lists(st.one_of(st.integers(0, n - 1), st.tuples(st.integers(0, n - 1), st.integers(1, 12)).map(list)),
+                          max_size=10))
+    cycle = draw(st.one_of(st.just([]), st.lists(st.integers(0, n - 1), min_size=1, max_size=5)))
+    return {"kind": "interleaved", "jobs": jobs, "schedule": sched, "cycle": cycle}
+
+
 def _shard_hyp(arg):
     seed, n = arg
     res = Result()
@@ -527,6 +705,8 @@ def _shard_hyp(arg):
     rokeys = [k for k in keys if not writable_row(M.all_rows()[k])]
     hyp.search(case_st(wkeys, rokeys), run_case, res, n, seed, ID, nontrivial=is_nontrivial,
                classify=lambda c: ["hyp"] + features(c), extra_rounds_budget_s=15.0)
+    hyp.search(inter_st(wkeys, rokeys), run_case, res, max(1, n // 6), seed + 3, ID, nontrivial=is_nontrivial,
+               classify=lambda c: ["hyp:interleaved"] + features(c), extra_rounds_budget_s=15.0)
     return res
 
 
